@@ -120,8 +120,8 @@ def check_state(desc, sc, pool, excl, bases, res, maxn, sh=0, ns=1):
                     if len(inc) > 1 and not exs and not any(set(p) & set('{},') for p in inc):
                         compare(res, dict(inp0, how='brace'), gl('{' + ','.join(inc) + '}', fs + 'B', root), want, fs)
                     # pathlib: same set, joined on the root, no duplicates
-                    if k % 3 == 0 and 'Y' not in fs:
-                        pf = fscommon.gflags(''.join(c for c in fs if c in 'GEDIQCO'))
+                    if k % 3 == 0:
+                        pf = fscommon.gflags(''.join(c for c in fs if c in 'GEDIQCOY'))
                         try:
                             pg = [str(x) for x in WP.Path(root).glob(inc, flags=pf, exclude=exs or None)]
                         except Exception as e:  # noqa: BLE001
@@ -224,7 +224,7 @@ def replay(v):
         elif how == 'negateall':
             got = gl(['!' + e for e in exs], fs + 'NA', root)
         elif how == 'pathlib':
-            pf = fscommon.gflags(''.join(c for c in fs if c in 'GEDIQCO'))
+            pf = fscommon.gflags(''.join(c for c in fs if c in 'GEDIQCOY'))
             pg = [str(x) for x in WP.Path(root).glob(inc, flags=pf, exclude=exs or None)]
             return {'violates': len(pg) != len(set(pg)), 'observed': [os.path.relpath(x, root) for x in pg][:40]}
         if how == 'negation-only':
